@@ -83,6 +83,13 @@ def cases(rng, tier, feats, drv_ok):
             extra = PL.extra_element(i, path)
             out.append({'line': b.line(PL.mod_list(b.v, i, path, lambda l, e=extra: l + [e])), 'kind': 'append', 'expect': 'any', 'name': b.name,
                         'pos': f'{PL.TOK[i]}{list(path)}'})
+        # ... and to EVERY FRI vector at once (one more step size, inner-layer config, inner-layer commitment and layer witness after the
+        # n_layers the config declares): still unused, still the same verdict — a verifier whose number of folding rounds follows the
+        # lengths of these vectors instead of n_layers would run a round the config validation never saw
+        I = PL.IDX; v = b.v
+        for key in ('cfg.fri.fri_step_sizes', 'cfg.fri.inner_layers', 'unsent.fri.inner_layers', 'witness.fri_witness'):
+            v = PL.mod_list(v, I[key], (), lambda l, e=PL.extra_element(I[key], ()): l + [e])
+        out.append({'line': b.line(v), 'kind': 'append-all-fri-vectors', 'expect': 'ok', 'name': b.name, 'pos': 'fri vectors'})
     # model sample: every 25th mutant of the fixture / recursive / dex bases, every 200th of the larger layouts (thorough tier)
     for c in out:
         if c.get('hxonly') is False and not any(x in c['name'] for x in ('fixture', 'recursive/', 'dex/')):
